@@ -7,6 +7,7 @@ mod dualops;
 mod calops;
 mod misc;
 mod numops;
+mod linalg;
 
 fn main() {
     let path = std::env::args().nth(1).expect("usage: vreplay <scenarios.json>");
@@ -31,6 +32,7 @@ fn run(sc: &Value) -> Value {
     match sc["kind"].as_str().unwrap_or("") {
         k if k.starts_with("dual") => dualops::run(sc),
         k if k.starts_with("cal") => calops::run(sc),
+        "linalg" => linalg::run(sc),
         k if k.starts_with("number") || k == "set_order" || k == "from" => numops::run(sc),
         _ => misc::run(sc),
     }
